@@ -566,6 +566,14 @@ func genReply(t *rapid.T, h *helper) breply {
 		}
 		r.stanza = pre
 	}
+	if rk != "truncated" && rk != "broken-xml" && rapid.IntRange(0, 4).Draw(t, "respell") == 0 {
+		// the same answer with its character data in other XML spellings (CDATA
+		// sections, character references, several runs where there was one)
+		if b := xt.Respell([]byte(r.stanza), uint32(len(r.stanza))); string(b) != r.stanza {
+			r.stanza = string(b)
+			r.muts = append(r.muts, "text-respelled")
+		}
+	}
 	return r
 }
 
